@@ -42,6 +42,7 @@ func PlanCases(prop, tier string, seed int64) (cases []*Case, rule []string) {
 		add(n(140, 2000), "merge with random deletion sets (nil, empty, sparse, dense, everything) and report DocumentNumbers", func() *Case { return g.MergeObs() })
 		add(n(12, 150), "segments with identical field lists merged without deletions (byte-copy path across 128-document blocks): content at the reported numbers", func() *Case { return g.CopyPathMerge() })
 	case "C04":
+		add(n(30, 400), "persist every segment of a random merge tree; the byte-exact loader models (footer, fields section, stored trailer and index, doc-value locations) run on the real bytes and must read what the loader reads", func() *Case { return g.FooterCase() })
 		add(n(110, 1500), "build or merge, dump, reload from memory and from a file, re-persist the loaded segment, dump each", func() *Case { return g.PersistLoad() })
 	case "C05":
 		add(n(150, 2500), "a built/loaded/merged segment and 8 iterators with random exclusions, flags, Next/Advance sequences", func() *Case { return g.IterCase(8) })
